@@ -543,8 +543,9 @@ class Evaluator:
         return ("fmt", self.term(e.value, st, log, nid), e.conversion)
 
     def t_Lambda(self, e, st, log, nid):
-        st.defs[f"<lambda@{e.lineno}>"] = e
-        return ("lambda", f"<lambda@{e.lineno}>", norm(e))
+        key = f"<lambda@{e.lineno}:{e.col_offset}>"
+        st.defs[key] = e
+        return ("lambda", key, norm(e))
 
     def t_NamedExpr(self, e, st, log, nid):
         v = self.term(e.value, st, log, nid)
@@ -568,6 +569,8 @@ class Evaluator:
         if log:
             st.events.extend(x for x in sub.events[len(st.events):])
             st.nfresh = sub.nfresh
+        for k_, v_ in sub.defs.items():
+            st.defs.setdefault(k_, v_)
         return ("comp", kind, elt, tuple(gens))
 
     def t_ListComp(self, e, st, log, nid):
